@@ -18,7 +18,7 @@ import (
 const verifC01KnownFirstProposal = "acked-first-proposal-truncated:base=0"
 
 type verifScriptWeights struct {
-	commit, retry, failover, reinstall, crash, restart, isolate, cut, heal, drop, flush, staleCommit, badInstall, fence, cleanFailover, pageCut, divergentTail, doubleFork int
+	commit, retry, failover, reinstall, crash, restart, isolate, cut, heal, drop, flush, staleCommit, badInstall, fence, cleanFailover, pageCut, divergentTail, doubleFork, rollingOutage int
 }
 
 type verifScriptOpts struct {
@@ -176,7 +176,7 @@ func verifRunScript(rt *rapid.T, k *kit.Case, s *verifSim, o verifScriptOpts) ve
 	}
 	actions := []action{{"commit", w.commit}, {"retry", w.retry}, {"failover", w.failover}, {"reinstall", w.reinstall}, {"crash", w.crash},
 		{"restart", w.restart}, {"isolate", w.isolate}, {"cut", w.cut}, {"heal", w.heal}, {"drop", w.drop}, {"flush", w.flush},
-		{"staleCommit", w.staleCommit}, {"badInstall", w.badInstall}, {"fence", w.fence}, {"cleanFailover", w.cleanFailover}, {"pageCut", w.pageCut}, {"divergentTail", w.divergentTail}, {"doubleFork", w.doubleFork}}
+		{"staleCommit", w.staleCommit}, {"badInstall", w.badInstall}, {"fence", w.fence}, {"cleanFailover", w.cleanFailover}, {"pageCut", w.pageCut}, {"divergentTail", w.divergentTail}, {"doubleFork", w.doubleFork}, {"rollingOutage", w.rollingOutage}}
 	var bag []string
 	for _, a := range actions {
 		for i := 0; i < a.w; i++ {
@@ -804,6 +804,72 @@ func verifRunScript(rt *rapid.T, k *kit.Case, s *verifSim, o verifScriptOpts) ve
 			}
 			doFailover(c, t3, false)
 			s.flags["install with two forked ex-leaders among the responders"] = true
+		case "rollingOutage":
+			// followers drop out one after the other while the leader keeps
+			// proposing (the last proposals reach fewer and fewer replicas, the
+			// final one only the leader); then everybody but the leader comes back
+			// and one of the early holders takes over
+			rollBudget := budget
+			if o.enabled["C02"] && !o.enabled["C01"] {
+				rollBudget = N - 1 // a safety invariant holds whatever is down
+			}
+			if N < 3 || rollBudget < 2 || s.outSet(isolated) > 0 {
+				continue
+			}
+			L := s.control[c].Leader
+			ln := s.node(L)
+			inst, ok := ln.installed[c]
+			if !ok || !s.isUp(L) {
+				continue
+			}
+			note("rollingOutage ch=%d leader=%d", c, L)
+			var dropped []ch.NodeID
+			for _, m := range s.nodes {
+				if m.id == L || len(dropped) >= rollBudget {
+					continue
+				}
+				for _, o := range s.nodes {
+					if o.id != m.id {
+						s.setCut(m.id, o.id, true)
+					}
+				}
+				isolated[m.id] = true
+				dropped = append(dropped, m.id)
+				cmd := &verifSimCommand{channel: c, node: L, proposal: Proposal{Key: verifSimChannelKey(c), Expected: inst.ID, CommandID: s.newCommandID(),
+					Records: s.newRecords(c, rapid.IntRange(1, 2).Draw(rt, "nrec"), inst.ID.ChannelEpoch, []byte("roll"))}}
+				s.commands = append(s.commands, cmd)
+				if _, err := s.commit(cmd); err == nil {
+					st.acks++
+				}
+			}
+			for _, id := range dropped {
+				for _, o := range s.nodes {
+					if o.id != id && o.id != L {
+						s.setCut(id, o.id, false)
+					}
+				}
+				delete(isolated, id)
+			}
+			for _, o := range s.nodes {
+				if o.id != L {
+					s.setCut(L, o.id, true)
+				}
+			}
+			isolated[L] = true
+			target := verifDrawNode(rt, s, "failoverTarget", func(n *verifSimNode) bool { return s.isUp(n.id) && n.id != L })
+			if target == nil {
+				continue
+			}
+			doFailover(c, target, rapid.Bool().Draw(rt, "bestTarget"))
+			if ti, ok := target.installed[c]; ok && s.control[c].Leader == target.id {
+				cmd := &verifSimCommand{channel: c, node: target.id, proposal: Proposal{Key: verifSimChannelKey(c), Expected: ti.ID, CommandID: s.newCommandID(),
+					Records: s.newRecords(c, 1, ti.ID.ChannelEpoch, []byte("after"))}}
+				s.commands = append(s.commands, cmd)
+				if _, err := s.commit(cmd); err == nil {
+					st.acks++
+				}
+			}
+			s.flags["rolling outage: followers dropped one by one, then an early holder took over"] = true
 		case "pageCut":
 			// let j recovery pages (Fetch exchanges) through, then lose the next ones:
 			// an Install is interrupted between two atomic page replacements
